@@ -99,7 +99,31 @@ func init() {
 		return nil, false
 	})
 	reg("Reach", func(e *Exec, fv *FuncV, args []Value, cc *ssa.CallCommon) (Value, bool) {
-		e.Reached[e.strArg(args[0])] = true
+		// a reachability witness: the label counts only if the path condition is satisfiable here
+		// (an inconsistent assumption or stub axiom would otherwise make every assertion pass vacuously)
+		lab := e.strArg(args[0])
+		if e.reachOK == nil {
+			e.reachOK = map[int]bool{}
+		}
+		n := len(e.pathCond)
+		ok, seen := e.reachOK[n]
+		if !seen && e.dirty == 0 {
+			ok, seen = true, true // nothing unchecked was assumed since the path was last known feasible
+		}
+		if !seen {
+			r := e.S.Check()
+			if r == Unsat {
+				panic(pathEnd{"infeasible"})
+			}
+			ok = r == SatRes
+			if ok {
+				e.dirty = 0
+			}
+			e.reachOK[n] = ok
+		}
+		if ok {
+			e.Reached[lab] = true
+		}
 		return nil, false
 	})
 	reg("Observe", func(e *Exec, fv *FuncV, args []Value, cc *ssa.CallCommon) (Value, bool) {
